@@ -428,13 +428,22 @@ def gen_elem_classes(src) -> str:
                     fields.append(f'({lean_str(s.targets[0].attr)}, {fe})')
                 if isinstance(s, ast.AugAssign) and _self_attr(s.target):
                     # if self._sin: self._phi -= np.pi/2
-                    ok = (_self_attr(s.target) and isinstance(s.op, ast.Sub) and ast.unparse(s.value) == 'np.pi / 2')
+                    # … or `self._phi -= <n> if <param> else np.pi/2` (the shift in degrees when the phase is in degrees)
+                    deg_alt = 'none'
+                    v = s.value
+                    if (isinstance(v, ast.IfExp) and isinstance(v.test, ast.Name) and v.test.id in pn
+                            and isinstance(v.body, ast.Constant) and isinstance(v.body.value, (int, float)) and not isinstance(v.body.value, bool)
+                            and ast.unparse(v.orelse) == 'np.pi / 2'):
+                        deg_alt = f'(some ({lean_str(v.test.id)}, {lean_rat(v.body.value)}))'
+                        ok = isinstance(s.op, ast.Sub)
+                    else:
+                        ok = (isinstance(s.op, ast.Sub) and ast.unparse(v) == 'np.pi / 2')
                     if not ok:
                         _err(ELM, s, f'augmented assignment outside the grammar: {ast.unparse(s)}')
                     par = next((p for p in ast.walk(init) if isinstance(p, ast.If) and s in p.body), None)
                     if par is None or not _self_attr(par.test) or par.orelse or len(par.body) != 1:
                         _err(ELM, s, 'phase shift is not guarded by a plain `if self._flag:`')
-                    sin_shift = f'(some ({lean_str(par.test.attr)}, {lean_str(s.target.attr)}))'
+                    sin_shift = f'(some ({lean_str(par.test.attr)}, {lean_str(s.target.attr)}, {deg_alt}))'
                 if (isinstance(s, ast.Call) and isinstance(s.func, ast.Attribute) and s.func.attr == '__init__'
                         and isinstance(s.func.value, ast.Call) and isinstance(s.func.value.func, ast.Name) and s.func.value.func.id == 'super'):
                     for k in s.keywords:
@@ -543,9 +552,15 @@ def gen_undictify(src) -> str:
             steps.append('name')
         elif u == "kwargs.update({'reverse': element_dict.get('reverse', False)})":
             steps.append('reverse')
-        elif isinstance(s, ast.If) and ast.unparse(s.test) == "element_dict['name'] in circuit_dict.keys()" \
-                and [ast.unparse(b) for b in s.body] == ["kwargs.update(circuit_dict[element_dict['name']])"] and not s.orelse:
+        elif isinstance(s, ast.If) and ast.unparse(s.test) == "element_dict['name'] in circuit_dict.keys()" and not s.orelse \
+                and [ast.unparse(b) for b in s.body][:1] == ["kwargs.update(circuit_dict[element_dict['name']])"]:
             steps.append('circuit')
+            rest = [ast.unparse(b) for b in s.body][1:]
+            # the stored phase is radians / cosine reference: the flags must not be applied again
+            if rest == ["if 'phi' in circuit_dict[element_dict['name']]:\n    kwargs.update({'deg': False, 'sin': False})"]:
+                steps.append('clear_flags_if_phi')
+            elif rest:
+                _err(DLD, s, f'circuit merge outside the grammar: {rest}')
         elif isinstance(s, ast.Try):
             t = [ast.unparse(b) for b in s.body]
             h = [ast.unparse(b) for hd in s.handlers for b in hd.body]
@@ -617,6 +632,13 @@ def gen_decl_handlers(src) -> str:
         raise ExtractError(f'{SCH}: apply_direction_and_length not found')
     dirs = []
     node = fn.body[0]
+    one_terminal_plain = 'false'
+    if isinstance(node, ast.If) and ast.unparse(node.test) == 'not isinstance(element, elm.schemdraw.elements.Element2Term)':
+        want0 = ["return getattr(element, direction)() if direction in ('right', 'left', 'up', 'down') else element"]
+        if [ast.unparse(b) for b in node.body] != want0 or node.orelse:
+            _err(SCH, node, 'one-terminal branch of apply_direction_and_length outside the grammar')
+        one_terminal_plain = 'true'
+        node = fn.body[1]
     while isinstance(node, ast.If):
         t = node.test
         if not (isinstance(t, ast.Compare) and isinstance(t.left, ast.Name) and t.left.id == 'direction'
@@ -652,6 +674,8 @@ def gen_decl_handlers(src) -> str:
         _err(SCH, ef, 'element_factory call changed')
     return ('def declHandlers : List DeclHandler :=\n  ' + lean_list(recs, ',\n   ') + '\n\n' +
             'def declDirections : List (String × String) :=\n  ' + lean_list(dirs, ', ') + '\n\n' +
+            '/-- one-terminal symbols get their direction method called without a length -/\n'
+            f'def declOneTerminalPlain : Bool := {one_terminal_plain}\n\n' +
             '/-- keyword defaults injected by `element_factory` -/\n'
             'def declFactoryDefaults : List (String × Val) := [("name", .str ""), ("reverse", .bool false)]\n\n'
             '/-- `apply_position`: the element is placed at the `end` anchor of the element named by `place_after` -/\n'
